@@ -27,8 +27,9 @@ fn offsets(sink: &Sink) -> Tally {
                         Ok(g) => sink.violation("C19.try_offset", "wrong result", case(), format!("{}.try_offset({}, {}) = {:?}, arithmetic says {:?}", q, df, dr, g, want)),
                         Err(e) => sink.violation("C19.try_offset", "panicked", case(), format!("{}.try_offset({}, {}) panicked: {}", q, df, dr, e)),
                     }
-                    // the panicking variant: in range everywhere, out of range on a 19x19 window
-                    if want.is_some() || (df.abs() <= 9 && dr.abs() <= 9) {
+                    // the panicking variant, for every offset pair as well (an out-of-range pair
+                    // must panic - in every build profile)
+                    {
                         t.transitions += 1;
                         let go = guarded(|| sq_of(q.offset(df as i8, dr as i8)));
                         match (go, want) {
@@ -341,7 +342,7 @@ fn short_strings(thorough: bool, sink: &Sink) -> Tally {
 
 pub fn run(run: &mut Run) {
     let thorough = !run.quick();
-    run.rule = "64 squares x all 256x256 (i8,i8) offset pairs through try_offset (and offset on the in-range pairs and a 19x19 out-of-range window); all coordinate constructors/decompositions/flips; index functions on 0..1024 and extreme values; TryFrom<char> for every Unicode scalar value; FromStr of Square/File/Rank/Piece/Color/Move on every string of length <=3 over a 40-symbol alphabet, every single-character string, and every string of length <=6 (thorough 7) over an 11-symbol move alphabet; format->parse of every legal-shape value. non-trivial = in-range offsets / accepted chars".into();
+    run.rule = "64 squares x all 256x256 (i8,i8) offset pairs through try_offset and the panicking offset (which must panic exactly on the out-of-range pairs); all coordinate constructors/decompositions/flips; index functions on 0..1024 and extreme values; TryFrom<char> for every Unicode scalar value; FromStr of Square/File/Rank/Piece/Color/Move on every string of length <=3 over a 40-symbol alphabet, every single-character string, and every string of length <=6 (thorough 7) over an 11-symbol move alphabet; format->parse of every legal-shape value. non-trivial = in-range offsets / accepted chars".into();
     run.assume("'all Unicode strings' is restricted to the enumerated string families; the overflow-checked and the release profile are both run (configurations magic-chk and magic-rel)");
     if run.config == "magic-chk" {
         run.assume("this configuration has overflow-checks = true and debug-assertions = true");
